@@ -226,8 +226,8 @@ def fs_histories(seed, tier):
         ['G0', 'P3', 'R', 'P1', 'R', 'P2', 'R', 'P6', 'R', 'P2', 'R'],
     ]
     for d in directed:
-        for mode in ('file', 'dest', 'dir'):
-            hs.append((mode, ['D' if (o == 'N' and mode == 'dir') else o for o in d]))
+        for mode in ('file', 'dest', 'dir', 'dirlink'):
+            hs.append((mode, ['D' if (o == 'N' and mode.startswith('dir')) else o for o in d]))
     # known finding K1 (two grammars with equal CRC-32) is replayed deterministically
     hs.append(('file', ['GK0', 'R', 'GK1', 'R']))
     hs.append(('file', ['G0', 'PK0', 'R', 'PK1', 'R']))
@@ -249,8 +249,8 @@ def fs_histories(seed, tier):
             else:
                 ops.append('N')
         ops.append('R')
-        mode = rng.choice(['file', 'dest', 'dir'])
-        if mode == 'dir':
+        mode = rng.choice(['file', 'dest', 'dir', 'dirlink'])
+        if mode.startswith('dir'):
             ops = ['G%d' % rng.randrange(4)] + ['D' if o == 'N' else o for o in ops]
         hs.append((mode, ops))
     return hs
